@@ -6,16 +6,24 @@ package updown
 //@ func writeUpDownCatchment
 //@   modifies w
 //@   loop 1:
-//@     invariant !failed(w)
+//@     invariant !failed(w) && len(written(w)) == 1 + 5 * range_i
 //@   loop 2:
-//@     invariant !failed(w)
+//@     invariant !failed(w) && len(written(w)) == 2 + 5 * range_i1 && freshslice(temp) && len(temp) == range_i && forall(j, 0, range_i, temp[j] == result.same.catchment[j].tname)
 //@   loop 3:
-//@     invariant !failed(w)
+//@     invariant !failed(w) && len(written(w)) == 3 + 5 * range_i1 && freshslice(temp) && len(temp) == range_i && forall(j, 0, range_i, temp[j] == result.up.catchment[j].tname)
 //@   loop 4:
-//@     invariant !failed(w)
+//@     invariant !failed(w) && len(written(w)) == 4 + 5 * range_i1 && freshslice(temp) && len(temp) == range_i && forall(j, 0, range_i, temp[j] == result.down.catchment[j].tname)
 //@   loop 5:
-//@     invariant !failed(w)
+//@     invariant !failed(w) && len(written(w)) == 5 + 5 * range_i1 && freshslice(temp) && len(temp) == range_i && forall(j, 0, range_i, temp[j] == result.side.catchment[j].tname)
+//@   # C08 output: per query five writes - the query name, then the names of the same / up / down / side bins in bin order, each
+//@   # list joined by ';', separated by ',' and ended by a newline
+//@   after call:Write#2: assert [row.query] result == results[range_i] && written(w)[len(written(w))-1] == result.qname + ","
+//@   after call:Write#3: assert [row.same] len(temp) == len(result.same.catchment) && forall(j, 0, len(temp), temp[j] == result.same.catchment[j].tname) && written(w)[len(written(w))-1] == join(temp, ";") + ","
+//@   after call:Write#4: assert [row.up] len(temp) == len(result.up.catchment) && forall(j, 0, len(temp), temp[j] == result.up.catchment[j].tname) && written(w)[len(written(w))-1] == join(temp, ";") + ","
+//@   after call:Write#5: assert [row.down] len(temp) == len(result.down.catchment) && forall(j, 0, len(temp), temp[j] == result.down.catchment[j].tname) && written(w)[len(written(w))-1] == join(temp, ";") + ","
+//@   after call:Write#6: assert [row.side] len(temp) == len(result.side.catchment) && forall(j, 0, len(temp), temp[j] == result.side.catchment[j].tname) && written(w)[len(written(w))-1] == join(temp, ";") + "\n"
 //@   ensures [c19] implies(result == nil, !failed(w))
+//@   ensures [rows] implies(result == nil, len(written(w)) == 1 + 5 * len(results) && written(w)[0] == "query,closestsame,closestup,closestdown,closestside\n")
 
 //@ func writeUpdownTable
 //@   modifies w
